@@ -18,6 +18,14 @@ def facts : Facts :=
 theorem facts_ok : facts.Ok ∧ SourceFacts.dataOneSectionPerOp = true ∧ SourceFacts.dataSlotInsideLock = true := by
   refine ⟨⟨?_, ?_, ?_⟩, ?_, ?_⟩ <;> decide
 
+/-- the data handed out is shared between all threads that hold a handle (`Arc<D>` clones of one value):
+    that is only sound because a tree can be on several threads only when `D` is `Send + Sync`
+    (`C08.markers_sound`); here the facts that theorem is instantiated with -/
+theorem data_sharing_facts :
+    SourceFacts.nodeSendNeedsDSend = true ∧ SourceFacts.nodeSendNeedsDSync = true ∧
+    SourceFacts.nodeSyncNeedsDSend = true ∧ SourceFacts.nodeSyncNeedsDSync = true ∧
+    SourceFacts.otherUnsafeMarkerImpls = 0 := by decide
+
 /-- **mutual exclusion**: in every reachable state a thread inside a writing operation is alone
     inside the slot's lock -/
 theorem exclusion (n : Nat) (s : Sys) (h : Reachable facts n s) (i j : Nat) (pi pj : PC)
